@@ -273,6 +273,7 @@ func c10R3(c *Ctx) {
 				}
 			}
 		case "ReconcilePodENI.gcCRPodENIs":
+			p.Func(podENICtlPkg, "ReconcilePodENI.podRequirePodENI") // anchor: the requirement names the predicate
 			c.Require("C10.R3", key, fn, ps.st.Node, "err != nil || !m.podRequirePodENI(ctx, p)", nil)
 		default:
 			c.Bad("C10.R3", key, p.Pos(ps.st.Node), fn.Key(), "teardown started only from the three known sites", "new site")
